@@ -132,7 +132,7 @@ def _case(args):
 
 def run(ctx, res):
     rng = random.Random(ctx['seed'] * 1000003 + 14)
-    N = tier_scale(ctx['tier'], 6000, 60000) * (3 if ctx['deepen'] else 1)
+    N = tier_scale(ctx['tier'], 20000, 120000) * (3 if ctx['deepen'] else 1)
     jobs = []
     for i in range(N):
         safe = i % 2 == 0
